@@ -305,6 +305,26 @@ fn handover(name: String, params: Value) -> Scenario {
         } else {
             ConnectSpec::default()
         };
+        // (resumed: the same on the second connection of a Context that recorded a disconnection and
+        // resumes a live session - hook H1 -: what connect() read ahead belongs to the new connection)
+        let resumed = chz.choose(2) == 1;
+        let spec = if resumed { ConnectSpec { client_id: Some("handover".into()), session_expiry: Some(1000), ..spec } } else { spec };
+        if resumed {
+            sys.auto_exit = false;
+            sys.connect_with(spec.clone(), SPacket::Connack { session_present: false, reason: 0, props: vec![] });
+            if !sys.dead {
+                sys.start_run();
+            }
+            sys.apply(Ev::Eof);
+            if sys.dead {
+                return sys.report(ex, &[]);
+            }
+            sys.events.push("MarkDisconnected(10s ago); Reconnect".into());
+            sys.classes.push("Reconnect".into());
+            sys.w.cmd(crate::world::CtxCmd::MarkDisconnected(10));
+            sys.w.new_wire();
+            sys.m.new_wire();
+        }
         sys.events.push(format!("Connect; CONNACK + {} of {} following bytes in the same read", k, rest));
         sys.classes.push("Connect".into());
         sys.m.connect(spec.clone());
@@ -325,7 +345,16 @@ fn handover(name: String, params: Value) -> Scenario {
             sys.m.deliver(tail[fed].clone());
             fed += 1;
         }
-        sys.start_run();
+        if resumed {
+            sys.events.push("Run(resume)".into());
+            sys.classes.push("Resume(expired=false)".into());
+            sys.m.resume(false);
+            sys.m.ctx_woken = true;
+            sys.w.cmd(crate::world::CtxCmd::Run);
+            sys.sync();
+        } else {
+            sys.start_run();
+        }
         if !sys.dead && c + k < bytes.len() {
             sys.events.push("Deliver(the remaining bytes)".into());
             sys.classes.push("DeliverRest".into());
